@@ -8,13 +8,24 @@ From TT Require Import Model.Doc Gen.StyleTables Model.Isd Model.SigTimes Model.
 From TT Require Import Model.CueTriggers Spec.IsdSpec Spec.CueSpec Spec.CueSettings Proofs.C12.Derived Proofs.C06.Text.
 
 (* ---- line ------------------------------------------------------------------------------------------------------------------- *)
-Lemma round_q_whole_percent q : whole_percent q (round_q q) = true.
+Lemma round_q_whole_percent q : whole_percent q (clamp_pct (round_q q)) = true.
 Proof.
-  unfold whole_percent, round_q. destruct q as [a b]. cbn [Qnum Qden].
+  unfold whole_percent, round_q, clamp_pct, clamp_q. destruct q as [a b]. cbn [Qnum Qden].
   destruct (round_he_cases a (Zpos b) eq_refl) as (_ & H & _). set (m := round_he a (Zpos b)) in *. clearbody m.
-  unfold Qle_bool, Qabs, Qminus, Qplus, Qopp, inject_Z. cbn [Qnum Qden]. apply Z.leb_le.
-  rewrite Pos2Z.inj_mul. change (Zpos 1) with 1. replace (a * 1 + - m * Zpos b) with (- (m * Zpos b - a)) by ring.
-  rewrite Z.abs_opp. cbn [Pos.mul]. nia.
+  assert (Hb : 0 < Zpos b) by lia.
+  assert (R1 : 0 <=? Z.max 0 (Z.min 100 m) = true) by (apply Z.leb_le; lia).
+  assert (R2 : Z.max 0 (Z.min 100 m) <=? 100 = true) by (apply Z.leb_le; lia).
+  rewrite R1, R2. cbn [andb].
+  assert (Q1 : Qle_bool (a # b) (inject_Z 0) = (a * 1 <=? 0 * Z.pos b)) by reflexivity.
+  assert (Q2 : Qle_bool (inject_Z 100) (a # b) = (100 * Z.pos b <=? a * 1)) by reflexivity.
+  rewrite Q1, Q2. clear Q1 Q2. destruct (a * 1 <=? 0 * Z.pos b) eqn:E1.
+  - apply Z.leb_le in E1. assert (Hm : m <= 0) by nia. replace (Z.max 0 (Z.min 100 m)) with 0 by lia. reflexivity.
+  - apply Z.leb_gt in E1. destruct (100 * Z.pos b <=? a * 1) eqn:E2.
+    + apply Z.leb_le in E2. assert (Hm : 100 <= m) by nia. replace (Z.max 0 (Z.min 100 m)) with 100 by lia. reflexivity.
+    + apply Z.leb_gt in E2. assert (Hm : 0 <= m <= 100) by nia. replace (Z.max 0 (Z.min 100 m)) with m by lia.
+      unfold Qle_bool, Qabs, Qminus, Qplus, Qopp, inject_Z. cbn [Qnum Qden]. apply Z.leb_le.
+      rewrite Pos2Z.inj_mul. change (Zpos 1) with 1. replace (a * 1 + - m * Zpos b) with (- (m * Zpos b - a)) by ring.
+      rewrite Z.abs_opp. cbn [Pos.mul]. nia.
 Qed.
 
 Theorem line_setting_spec ra n k da :
@@ -85,24 +96,40 @@ Proof.
   destruct (line_position cfg) eqn:Elp.
   - destruct (line_setting (eattrs r)) as [x|] eqn:El; [|discriminate]. cbn [bind] in H.
     destruct (vtt_inlines (echildren p) (v_css st)) as [items css].
-    destruct (only_whitespace _); injection H as <- _; constructor; [|constructor].
+    destruct (vtt_blank _); injection H as <- _; constructor; [|constructor].
     unfold settings_from. rewrite Elp. cbn [c_line c_textalign]. split; [exists x; split; [exact El | reflexivity] | reflexivity].
   - cbn [bind] in H. destruct (vtt_inlines (echildren p) (v_css st)) as [items css].
-    destruct (only_whitespace _); injection H as <- _; constructor; [|constructor].
+    destruct (vtt_blank _); injection H as <- _; constructor; [|constructor].
     unfold settings_from. rewrite Elp. cbn [c_line c_textalign]. split; reflexivity.
 Qed.
 
+(* the paragraphs process_div reaches below an element: through divisions *)
+Fixpoint block_ps (e : elem) : list elem :=
+  match e with
+  | Elem a cs =>
+      match e_kind a with
+      | KDiv => (fix go (l : list elem) : list elem := match l with [] => [] | c :: l' => block_ps c ++ go l' end) cs
+      | KP => [e]
+      | _ => []
+      end
+  end.
+Lemma block_ps_node a cs : block_ps (Elem a cs) = match e_kind a with KDiv => flat_map block_ps cs | KP => [Elem a cs] | _ => [] end.
+Proof.
+  cbn [block_ps]. destruct (e_kind a); reflexivity.
+Qed.
 Definition cue_settings_sound (cfg : vtt_config) (fs : list isd_filter) (seq : list (Q * list elem)) (c : cue) : Prop :=
   exists t regions r p, In (t, regions) seq /\ In r (apply_filters fs regions) /\
-                        In p (flat_map echildren (flat_map echildren (echildren r))) /\ settings_from cfg r p c.
+                        In p (flat_map block_ps (flat_map echildren (echildren r))) /\ settings_from cfg r p c.
 
-Lemma finish_settings esc (P : cue -> Prop) :
+Lemma finish_settings fill blank (P : cue -> Prop) :
   (forall c e, P c -> P (mkCue (c_id c) (c_begin c) (Some e) (c_items c) (c_line c) (c_textalign c))) ->
-  forall cs, Forall P cs -> Forall P (finish_cues esc cs).
+  forall cs, Forall P cs -> Forall P (finish_cues fill blank cs).
 Proof.
-  intros HP. induction cs as [|c cs IH]; intros H; [constructor|]. inversion H as [|? ? Hc Hcs]; subst. destruct cs as [|c' cs'].
-  - cbn [finish_cues]. destruct (c_end c); [exact H|]. destruct (only_whitespace _); [constructor|]. constructor; [apply HP, Hc | constructor].
-  - change (finish_cues esc (c :: c' :: cs')) with (c :: finish_cues esc (c' :: cs')). constructor; [exact Hc | apply IH, Hcs].
+  intros HP. assert (HD : forall c, P c -> P (default_end c)) by (intros c Hc; unfold default_end; destruct (c_end c); [exact Hc | apply HP, Hc]).
+  induction cs as [|c cs IH]; intros H; [constructor|]. inversion H as [|? ? Hc Hcs]; subst. destruct cs as [|c' cs'].
+  - cbn [finish_cues]. destruct (c_end c); [exact H|]. destruct (blank c); [constructor|]. constructor; [apply HD, Hc | constructor].
+  - change (finish_cues fill blank (c :: c' :: cs')) with ((if fill then default_end c else c) :: finish_cues fill blank (c' :: cs')).
+    constructor; [destruct fill; [apply HD, Hc | exact Hc] | apply IH, Hcs].
 Qed.
 
 Theorem vtt_cues_settings cfg fs seq cs css :
@@ -112,23 +139,35 @@ Proof.
   destruct (vtt_loop cfg fs seq (mkVttState 0 [])) as [[cs0 st]|] eqn:E; [|discriminate]. cbn [bind fst snd] in H. injection H as <- _.
   apply finish_settings.
   { intros c e (t & regions & r & p & H1 & H2 & H3 & H4). exists t, regions, r, p. repeat split; try assumption; apply H4. }
-  assert (Hps : forall r b en ps st0 x s1, vtt_process_ps cfg (eattrs r) b en ps st0 = Ok (x, s1) ->
-                Forall (fun c => exists p, In p ps /\ settings_from cfg r p c) x).
-  { intros r b en. induction ps as [|p ps IH]; intros st0 x s1 Hx; cbn [vtt_process_ps] in Hx.
+  assert (Hbs : forall r b en l,
+                Forall (fun e => forall st0 x s1, Model.CueWriter.vtt_block cfg (eattrs r) b en e st0 = Ok (x, s1) ->
+                                 Forall (fun c => exists p, In p (block_ps e) /\ settings_from cfg r p c) x) l ->
+                forall st0 x s1, vtt_blocks cfg (eattrs r) b en l st0 = Ok (x, s1) ->
+                Forall (fun c => exists p, In p (flat_map block_ps l) /\ settings_from cfg r p c) x).
+  { intros r b en. induction l as [|e l IH]; intros Hl st0 x s1 Hx; cbn [vtt_blocks] in Hx.
     - injection Hx as <- _. constructor.
-    - destruct (vtt_process_p cfg (eattrs r) b en p st0) as [[x1 sa]|] eqn:E1; [|discriminate]. cbn [bind fst snd] in Hx.
-      destruct (vtt_process_ps cfg (eattrs r) b en ps sa) as [[x2 sb]|] eqn:E2; [|discriminate]. cbn [bind fst snd] in Hx.
-      injection Hx as <- _. apply Forall_app. split.
-      + eapply Forall_impl; [|exact (vtt_process_p_settings _ _ _ _ _ _ _ _ E1)]. intros c Hc. exists p. split; [left; reflexivity | exact Hc].
-      + eapply Forall_impl; [|exact (IH _ _ _ E2)]. intros c (p' & Hp' & Hc). exists p'. split; [right; exact Hp' | exact Hc]. }
+    - inversion Hl as [|? ? He Hl']; subst.
+      destruct (Model.CueWriter.vtt_block cfg (eattrs r) b en e st0) as [[x1 sa]|] eqn:E1; [|discriminate]. cbn [bind fst snd] in Hx.
+      destruct (vtt_blocks cfg (eattrs r) b en l sa) as [[x2 sb]|] eqn:E2; [|discriminate]. cbn [bind fst snd] in Hx.
+      injection Hx as <- _. cbn [flat_map]. apply Forall_app. split.
+      + eapply Forall_impl; [|exact (He _ _ _ E1)]. intros c (p & Hp & Hc). exists p. split; [apply in_or_app; left; exact Hp | exact Hc].
+      + eapply Forall_impl; [|exact (IH Hl' _ _ _ E2)]. intros c (p' & Hp' & Hc). exists p'. split; [apply in_or_app; right; exact Hp' | exact Hc]. }
+  assert (Hb : forall r b en e st0 x s1, Model.CueWriter.vtt_block cfg (eattrs r) b en e st0 = Ok (x, s1) ->
+               Forall (fun c => exists p, In p (block_ps e) /\ settings_from cfg r p c) x).
+  { intros r b en. induction e as [a cs1 IH] using Proofs.Common.ElemInd.elem_ind2. intros st0 x s1 Hx.
+    rewrite Proofs.C06.Loop.vtt_block_node in Hx. rewrite block_ps_node.
+    destruct (e_kind a); try (injection Hx as <- _; constructor).
+    - exact (Hbs r b en cs1 IH _ _ _ Hx).
+    - eapply Forall_impl; [|exact (vtt_process_p_settings _ _ _ _ _ _ _ _ Hx)]. intros c Hc. exists (Elem a cs1). split; [left; reflexivity | exact Hc]. }
   assert (Hr : forall b en rs st0 x s1, vtt_regions cfg b en rs st0 = Ok (x, s1) ->
-               Forall (fun c => exists r p, In r rs /\ In p (flat_map echildren (flat_map echildren (echildren r))) /\ settings_from cfg r p c) x).
+               Forall (fun c => exists r p, In r rs /\ In p (flat_map block_ps (flat_map echildren (echildren r))) /\ settings_from cfg r p c) x).
   { intros b en. induction rs as [|r rs IH]; intros st0 x s1 Hx; cbn [vtt_regions] in Hx.
     - injection Hx as <- _. constructor.
-    - cbv zeta in Hx. destruct (vtt_process_ps cfg (eattrs r) b en _ st0) as [[x1 sa]|] eqn:E1; [|discriminate]. cbn [bind fst snd] in Hx.
+    - destruct (vtt_blocks cfg (eattrs r) b en _ st0) as [[x1 sa]|] eqn:E1; [|discriminate]. cbn [bind fst snd] in Hx.
       destruct (vtt_regions cfg b en rs sa) as [[x2 sb]|] eqn:E2; [|discriminate]. cbn [bind fst snd] in Hx.
       injection Hx as <- _. apply Forall_app. split.
-      + eapply Forall_impl; [|exact (Hps _ _ _ _ _ _ _ E1)]. intros c (p & Hp & Hc). exists r, p. split; [left; reflexivity|]. split; assumption.
+      + eapply Forall_impl; [|exact (Hbs r b en _ (proj2 (Forall_forall _ _) (fun e _ => Hb r b en e)) _ _ _ E1)].
+        intros c (p & Hp & Hc). exists r, p. split; [left; reflexivity|]. split; assumption.
       + eapply Forall_impl; [|exact (IH _ _ _ E2)]. intros c (r' & p & Hr' & Hp & Hc). exists r', p. split; [right; exact Hr'|]. split; assumption. }
   revert E. generalize (mkVttState 0 []). revert cs0 st.
   induction seq as [|[t regions] seq IH]; intros cs0 st st0 E; cbn [vtt_loop] in E.
